@@ -8,3 +8,4 @@
 #include "cmd_tf.inc"
 #include "cmd_dual.inc"
 #include "cmd_tapbranch.inc"
+#include "cmd_display.inc"
